@@ -1235,6 +1235,7 @@ int32_t tls13ParsePreSharedKey(ssl_t *ssl,
             /* See if early_data can be enabled. */
             if (foundPsk == PS_TRUE &&
                 ssl->extFlags.got_early_data == 1 &&
+                ssl->tls13SessionMaxEarlyData > 0 &&
                 ssl->sec.tls13ChosenPsk->isResumptionPsk == PS_TRUE &&
                 ssl->sec.tls13ChosenPsk->params != NULL &&
                 ssl->sec.tls13ChosenPsk->params->maxEarlyData > 0 &&
